@@ -5,6 +5,7 @@ import (
 	"go/constant"
 	"go/token"
 	"go/types"
+	"strings"
 )
 
 func init() { register("C01", checkC01) }
@@ -48,6 +49,27 @@ func checkC01(c *Check) {
 	c01Deliver(c)
 	c01TryDelivery(c)
 	c01EmitDSN(c)
+
+	// R3: the status-key contract of the targets below the queue. tryDelivery reads "no recorded error ⇒ delivered",
+	// so every key a target reports must be one of the queue's own strings. This is C09's rule set, evaluated here
+	// for the outbound targets (remote, smtp/lmtp, smtpconn).
+	c.Rule("R3", "targets below the queue report per-recipient results only under the exact strings the queue passed to AddRcpt, once (C09.K1/K1f/K2/K3b/K3c on remote, smtp/lmtp, smtpconn)", 6)
+	sub := newCheck("C09", c.P, c.Tier)
+	checkC09(sub)
+	for _, o := range sub.obs {
+		switch o.Rule {
+		case "K1", "K1f", "K2", "K3b", "K3c":
+		default:
+			continue
+		}
+		if !(strings.Contains(o.Key, "smtp_downstream") || strings.Contains(o.Key, "remote") || strings.Contains(o.Key, "smtpconn") || strings.HasPrefix(o.Key, "C.") || strings.HasPrefix(o.Key, "delivery.") || strings.HasPrefix(o.Key, "remoteDelivery.") || strings.HasPrefix(o.Key, "smtp.")) {
+			continue
+		}
+		c.Hold("R3", o.Rule+":"+o.Key, o.posRaw, o.OK, o.Msg)
+	}
+	for f := range sub.funcs {
+		c.SawFunc(f)
+	}
 }
 
 func c01Deliver(c *Check) {
